@@ -48,6 +48,11 @@ def full_cases(draw):
         # batches have to follow the NEW parameter set of their group
         case["regroup"] = {"groups": [draw(gen.group_params(len(scn["jobs"]))) for _ in scn["groups"]],
                            "successful": draw(st.booleans())}
+        # the jobs' estimates stay as configured, so the new walltimes keep the old time scale (every estimate still fits:
+        # resubmit-jobs -s does not repeat the up-front runtime check, and _make_batch spins for ever on a job whose
+        # estimate exceeds the cap -- DESIGN.md observation O5)
+        for g_old, g_new in zip(scn["groups"], case["regroup"]["groups"]):
+            g_new["tscale"] = g_old["tscale"]
     return case
 
 
@@ -129,7 +134,7 @@ def check_sbatch(scn, r, v, sim):
     if not ok:
         v.append(C.viol("C07:batch-limit", f"{tag} (group g{gi}: {g}): {why}"))
     o = r["sbatch_opts"]
-    want = {"account": f"acct{gi}", "partition": f"part{gi}", "time": H.walltime_str(g["walltime"]),
+    want = {"account": f"acct{gi}", "partition": f"part{gi}", "time": H.group_walltime(g),
             "job-name": f"pre{gi}_batch_{r['batch']}"}
     if gi % 2:
         want["qos"] = "high"
@@ -161,7 +166,7 @@ def check_sbatch(scn, r, v, sim):
                             f"config lists blocked_by={r['blocked_by'].get(n)}"))
         else:
             admitted = True
-    if r["estimates"] and any(r["estimates"].get(n) != jobs[n]["est"] for n in names):
+    if r["estimates"] and any(r["estimates"].get(n) != jobs[n]["est"] * g.get("tscale", 1) for n in names):
         v.append(C.viol("C07:batch-config-estimates", f"{tag}: estimates in batch config {r['estimates']}"))
     return admitted
 
